@@ -2,7 +2,7 @@
     the C04 request codecs, the C20 padding, the issuer's Evaluate (Model/Frontends.v eval3, C07) and the client's
     FinalizeToken (fin3, C02).  HPKE, the request signature, blind signing, the response AEAD and the RSA
     finalization are ARBITRARY functions; the theorem names the correctness laws of theirs it needs. *)
-From PatVerif Require Export Model.Frontends.
+From PatVerif Require Export Model.Frontends Base.Hash.
 Open Scope N_scope.
 
 Section Run3.
@@ -28,4 +28,26 @@ Section Run3.
     | Panic => Panic
     end.
 End Run3.
+
+(** ** the client side: request assembly of tokens/type3/client.go (encryptOriginTokenRequest + CreateTokenRequest).
+    [hpke_seal rnd aad pt] = (encapsulated key, ciphertext, exported secret); [sign msg] = the 96-byte r||s of the
+    key-blinded ECDSA signature over SHA-384(msg).  The associated data and the signed message are built here
+    exactly as the client builds them, independently of the issuer-side definitions [aad] / [signed_message]. *)
+Section Client3.
+  Variable hpke_seal : list byte -> list byte -> list byte -> list byte * list byte * list byte.
+  Variable sign : list byte -> list byte.
+  Definition name_key_id (nk : encap) : list byte := sha256 (enc_encap nk).
+  Definition client_aad (nk : encap) (request_key : list byte) : list byte :=
+    u8 (e_id nk) ++ u16 (e_kem nk) ++ u16 (e_kdf nk) ++ u16 (e_aead nk) ++ u16 3 ++ request_key ++ name_key_id nk.
+  Definition client_signed (request_key nkid ect : list byte) : list byte :=
+    u16 3 ++ request_key ++ nkid ++ u16p ect.
+  Definition client_request3 (nk : encap) (request_key : list byte) (keyid0 : N) (blinded_msg name rnd : list byte)
+    : req3 * list byte :=
+    let '(enc, ct, secret) := hpke_seal rnd (client_aad nk request_key) (enc_inner (inner_for keyid0 blinded_msg name)) in
+    let ect := enc ++ ct in
+    let nkid := name_key_id nk in
+    ({| q3_key := request_key; q3_nkid := nkid; q3_enc := ect; q3_sig := sign (client_signed request_key nkid ect) |}, secret).
+  (** the issuer's configuration for the same name key *)
+  Definition issuer_cfg (nk : encap) : list byte := u8 (e_id nk) ++ u16 (e_kem nk) ++ u16 (e_kdf nk) ++ u16 (e_aead nk).
+End Client3.
 Close Scope N_scope.
